@@ -237,15 +237,18 @@ def generic_ret_only_case(cid, rng, in_mod, is_async):
     # ... or in no part of the signature at all (the caller names it: `Subj::<i64>::subj(&app)`)
     nowhere = rng.random() < 0.5
     rty, rexpr = ("::std::string::String", '::std::format!("{:?}", T::default())') if nowhere else ("T", "T::default()")
-    body = '::vrt::enter("%s", ::vrt::tn(deps), ::vrt::addr(deps), &[]); %s%s' % (fid, "::vrt::yield_once().await; " if is_async else "", rexpr)
-    sig = "pub %sfn subj<D, T: ::core::default::Default + ::core::fmt::Debug + ::core::marker::Send + 'static>(deps: &D) -> %s { %s }" % ("async " if is_async else "", rty, body)
+    # ... and the fn may have no dependency at all (round 19): the `unmock_with` entry of a no_deps fn calls `subj::<T>()` itself
+    no_deps = (not in_mod) and rng.random() < 0.4
+    body = '::vrt::enter("%s", %s, &[]); %s%s' % (fid, '"", 0' if no_deps else "::vrt::tn(deps), ::vrt::addr(deps)", "::vrt::yield_once().await; " if is_async else "", rexpr)
+    sig = "pub %sfn subj<%sT: ::core::default::Default + ::core::fmt::Debug + ::core::marker::Send + 'static>(%s) -> %s { %s }" % (
+        "async " if is_async else "", "" if no_deps else "D, ", "" if no_deps else "deps: &D", rty, body)
     L = [APP_DEF]
     macro = rng.choice(["entrait", "entrait_export"])
     if in_mod:
         L += ["#[::entrait::%s(pub Subj, mock_api = SubjMock)] /*@inv*/" % macro, "pub mod subject_mod { use super::*;", "    " + sig, "}"]
         api = "subject_mod::SubjMock::subj"
     else:
-        L += ["#[::entrait::%s(pub Subj, mock_api = SubjMock)] /*@inv*/" % macro, sig]
+        L += ["#[::entrait::%s(pub Subj, mock_api = SubjMock%s)] /*@inv*/" % (macro, ", no_deps" if no_deps else ""), sig]
         api = "SubjMock"
     w = (lambda c: "::vrt::block_on(%s)" % c) if is_async else (lambda c: c)
     call = (lambda recv: "Subj::<i64>::subj(&%s)" % recv) if nowhere else (lambda recv: "%s.subj()" % recv)
@@ -260,8 +263,8 @@ def generic_ret_only_case(cid, rng, in_mod, is_async):
          '    ::vrt::phase("impl:0");',
          '    { let app = ::entrait::Impl::new(App { tag: 1, name: "n" }); let r%s = %s; ::vrt::result(&r); }' % (ann, w(call("app"))), "}"]
     meta = {"family": "fnmod", "mode": "generic", "nontrivial": True, "opts": [], "macro": macro,
-            "calls": [{"i": 0, "fn": fid, "args": [], "want_mock": want, "deps_usable": True, "nested": [], "async": is_async, "no_deps": False}],
-            "methods": [{"name": "subj", "kind": "generic", "arity": 0}], "sigs": [sig[:120]]}
+            "calls": [{"i": 0, "fn": fid, "args": [], "want_mock": want, "deps_usable": not no_deps, "nested": [], "async": is_async, "no_deps": no_deps}],
+            "methods": [{"name": "subj", "kind": "no_deps" if no_deps else "generic", "arity": 0}], "sigs": [sig[:120]]}
     return Case(cid, "\n".join(L + D) + "\n", meta=meta)
 
 
